@@ -335,6 +335,25 @@ def p_blockdiag_identities(rng: Any) -> tuple[str, list[Any]]:
     return 'blockdiag_identities', [bd]
 
 
+def p_blocks_cancel(rng: Any) -> tuple[str, list[Any]]:
+    """Two block-diagonal operators with the same layout whose blocks cancel pairwise (move-axis and its transpose, a
+    reshape and its transpose, P and P.T): the block rule yields an identity in the middle of the scan."""
+    n = int(rng.integers(1, 4))
+    lefts, rights = [], []
+    for _ in range(n):
+        form = int(rng.integers(3))
+        if form == 0:
+            _, (l, r) = p_moveaxis(rng)
+        elif form == 1:
+            _, (l, r) = p_reshape(rng)
+        else:
+            _, (l, r) = p_pack(rng)
+        lefts.append(l)
+        rights.append(r)
+    c = _block_container(rng, lefts)
+    return 'blocks_cancel', [BlockDiagonalOperator(c), BlockDiagonalOperator(_same_container(c, lefts, rights))]
+
+
 PATTERNS = {
     'inverse': p_inverse,
     'qurot': p_qurot,
@@ -349,6 +368,7 @@ PATTERNS = {
     'moveaxis': p_moveaxis,
     'nearmiss': p_nearmiss,
     'blockdiag_identities': p_blockdiag_identities,
+    'blocks_cancel': p_blocks_cancel,
 }
 
 INERT = ('dense', 'diagonal', 'toeplitz', 'broadcast_diagonal')
